@@ -57,7 +57,11 @@ def absorbing_lemma(out):
             other = Lazy(TE, "other")
             args = [conflict, other] if side == "left" else [other, conflict]
             st = Cell(Lazy("TypeCheckerState", "state"), "state")
+            other = ctx.as_agg(other)
+            args = [conflict, other] if side == "left" else [other, conflict]
+            ctx.other = other
             r = ctx.run_fn(f, args + [Lazy("TypeVariable", "parent"), Ref(st, (), True)])
+            ctx.variant_of(other)
             return r, ctx
         oid = "L.conflict_absorbs_%s" % side
         try:
@@ -75,6 +79,16 @@ def absorbing_lemma(out):
                     other_variant = t[2]
             seen.add(other_variant)
             if p.kind == "panic":
+                o = getattr(p.ctx, "other", None)
+                if other_variant is None and o is not None and o.attrs.get("discr") is not None:
+                    # unresolved on this path: the path condition must force the partner to be the Equal marker
+                    sol = z3.Solver()
+                    for c_ in p.pc:
+                        sol.add(c_)
+                    sol.add(o.attrs["discr"] != z3.BitVecVal(eng.src.variant_index(TE, "Equal"), 64))
+                    if sol.check() == z3.unsat:
+                        other_variant = "Equal"
+                        seen.add("Equal")
                 if other_variant != "Equal":
                     bad = "merge panics with a conflict against %s" % other_variant
                 continue
